@@ -11,7 +11,7 @@ From MZ.spec Require Import Adler DeflateSpec Zlib.
 From MZ.gen Require GenZlib.
 From MZ.model Require Import InflateCore InflateStream.
 From MZ.proofs Require Import IterPow StoredSpec InflateStoredZ InflateStoredChunks InflateStoredTotal InflateStoredGen.
-From MZ.proofs Require ZlibHeader InflateBasic.
+From MZ.proofs Require ZlibHeader InflateBasic InflateStoredApi.
 Import ListNotations.
 Local Open Scope N_scope.
 Arguments N.add : simpl never.
@@ -428,4 +428,56 @@ Proof.
               ltac:(rewrite <- Hdata; apply pow40_nat; exact Hlen)
               calls (is_new fmt) [] later [] [] Hfl HW Hshort ltac:(constructor) ltac:(intros [])) as (codes & acc & s' & Hs & H1 & H2 & H3).
   exists codes, acc, s'. rewrite <- Hdata in H2, H3. split; [exact Hs|]. split; [exact H1|]. split; assumption.
+Qed.
+
+(* ------------------------------------------------------------------ the one-call use: Finish on a fresh object *)
+Definition sfl_finish (fmt : dformat) : N := N.lor (sflags0 fmt) F_NONWRAP.
+
+Lemma sfl_finish_has fmt :
+  has (sfl_finish fmt) F_ZLIB = zl_of fmt /\ has (sfl_finish fmt) F_STOPBB = false /\
+  has (sfl_finish fmt) F_NONWRAP = true.
+Proof. destruct fmt; vm_compute; repeat split; reflexivity. Qed.
+
+(* inflate(fresh, whole stream (and anything after it), output with one spare byte, Finish): the shortcut that
+   decodes straight into the caller's buffer - this is how mz_uncompress uses the wrapper *)
+Theorem inflate_finish_fresh fmt cmf flg chunks last extra out_len :
+  cmf < 256 -> flg < 256 -> valid_header (Z.of_N cmf) (Z.of_N flg) = true ->
+  chunks_ok chunks -> bytes_ok last -> N.of_nat (length last) <= 65535 ->
+  let data := concat chunks ++ last in
+  let zl := zl_of fmt in
+  let stream := (if zl then [cmf; flg] else []) ++ stored_stream chunks last ++ (if zl then be32 (adler32 1 data) else []) in
+  N.of_nat (length data) < out_len -> out_len <= USIZE_MAX -> N.of_nat (length (stream ++ extra)) < 2 ^ 57 ->
+  exists r, inflate (is_new fmt) (stream ++ extra) out_len FL_FINISH = Ret r /\
+    sr_code r = MZ_STREAM_END /\ sr_in r = N.of_nat (length stream) /\ sr_out r = data.
+Proof.
+  intros Hcmf Hflg Hvalid Hc Hl1 Hl2 data zl stream Hroom Hrep Hshort.
+  set (B := map (pair false) chunks ++ [(true, last)]).
+  pose proof (shapeB_of chunks last Hc Hl1 Hl2) as HB. fold B in HB.
+  set (A := adler32 1 data).
+  assert (Hinput : stream ++ extra = InflateStoredZ.hz zl cmf flg ++ InflateStoredZ.encT zl A extra B).
+  { unfold stream, InflateStoredZ.hz, InflateStoredZ.encT, tail, tailz, B. rewrite enc_of. fold A.
+    destruct zl; cbn [app]; rewrite <- ?app_assoc; reflexivity. }
+  assert (Hdata : data = InflateStoredChunks.P B) by (unfold data, InflateStoredChunks.P, B; rewrite pay_of; reflexivity).
+  destruct (sfl_finish_has fmt) as (HZ & HSB & HNW).
+  assert (Hfin : final_status (sfl_finish fmt) zl A B = Done).
+  { unfold final_status. rewrite <- Hdata. unfold A. rewrite N.eqb_refl, !orb_true_r. reflexivity. }
+  destruct (InflateStoredApi.whole_stream_one_call (sfl_finish fmt) zl HZ HSB HNW cmf flg A Hcmf Hflg Hvalid
+              (adler32_lt _ _ adler_valid_1) B HB extra (amake out_len 0))
+    as (res & Hd & Hs & Hin & Hout & Hbuf).
+  { cbn [alen amake]. rewrite <- Hdata. exact Hroom. }
+  { cbn [alen amake]. exact Hrep. }
+  { rewrite <- Hinput. exact Hshort. }
+  unfold inflate. change (FL_FINISH =? FL_FULL) with false. cbv iota.
+  cbn [is_new is_fmt is_first is_last is_flushed set_first set_flushed set_last set_dec mk_is is_dec is_dict is_ofs is_avail].
+  change (status_eqb NeedsMoreInput FailedCannotMakeProgress) with false.
+  change (is_neg NeedsMoreInput) with false. cbn [andb orb negb].
+  change (FL_FINISH =? FL_FINISH) with true. cbn [andb orb negb].
+  fold (sflags0 fmt). fold (sfl_finish fmt).
+  rewrite Hinput, Hd. cbn [bind]. rewrite Hs, Hfin.
+  change (status_eqb Done FailedCannotMakeProgress) with false. change (is_neg Done) with false.
+  change (status_eqb Done Done) with true. cbn [negb].
+  eexists. split; [reflexivity|]. cbn [sr_code sr_in sr_out].
+  split; [reflexivity|]. split.
+  - rewrite <- Hinput, app_length in Hin. lia.
+  - rewrite Hout, Hdata. exact Hbuf.
 Qed.
